@@ -267,6 +267,10 @@ class Flattener:
 
     def stmt(self, st):
         t = st["t"]
+        if t == "raw":          # a verbatim token (used to plant syntax / lexical errors)
+            k = Tok(st["text"], st.get("kind", "sym"))
+            k.tags.append(key(st["loc"]))
+            return [k]
         if t == "block":
             return self.block(st["body"])
         if t == "expr":
